@@ -240,6 +240,14 @@ func c12Check(c specCase, r *h.Rec) error {
 		return h.Violf("Source reports declarations %v, the file declares %v in this order\n%s", gotOrder, wantOrder, src())
 	}
 
+	// every source declaration (alias declarations included, under the alias type itself) has its node: the
+	// generators start from Types[s] for s in Source
+	for _, s := range an.Source {
+		if an.Types[s] == nil {
+			return h.Violf("the source declaration %s has no node in Analysis.Types\n%s", s, src())
+		}
+	}
+
 	// --- closure: independent walk over go/types ------------------------------
 	reach := map[types.Type]bool{}
 	var order []types.Type
